@@ -16,11 +16,14 @@ def extract_sphere(dataset, radius, origin):
     subdomain.meta = dataset.meta.copy()
 
     for name, group in dataset.items():
-        pos = group.get("position", group.parent["amr"]["position"])
+        pos = group.get("position", None)
+        if pos is None:
+            # Groups without positions use those of the mesh if shapes match
+            pos = dataset["mesh"]["position"]
         if pos.shape != group.shape:
             warnings.warn(
                 "Ignoring datagroup '{}', which has no position ".format(group)
-                + "vector and has different shape than 'amr' group."
+                + "vector and has different shape than 'mesh' group."
             )
             continue
         r = (pos - origin).norm
@@ -39,11 +42,14 @@ def extract_box(dataset, dx, dy, dz, origin):
     subdomain.meta = dataset.meta.copy()
 
     for name, group in dataset.items():
-        pos = group.get("position", group.parent["amr"]["position"])
+        pos = group.get("position", None)
+        if pos is None:
+            # Groups without positions use those of the mesh if shapes match
+            pos = dataset["mesh"]["position"]
         if pos.shape != group.shape:
             warnings.warn(
                 "Ignoring datagroup '{}', which has no position ".format(group)
-                + "vector and has different shape than 'amr' group."
+                + "vector and has different shape than 'mesh' group."
             )
             continue
         centered_pos = pos - origin
